@@ -198,15 +198,19 @@ def read_tags(prog, modname, names):
 
 
 def lexer_fields(prog):
-    """field name -> index of lexgen_util::Lexer, from the struct aggregate in its constructor"""
-    f = prog.find('Lexer', 'new_from_iter_with_state')
-    if f is None:
-        raise Inconclusive('lexgen_util::Lexer::new_from_iter_with_state not found')
-    for b, ins in f.blocks.items():
-        for st in ins:
-            if st[0] == 'assign' and st[2][0] == 'struct' and st[2][1].startswith('Lexer'):
-                return {name: i for i, (name, _) in enumerate(st[2][2])}
-    raise Inconclusive('Lexer aggregate not found')
+    """field name -> index of lexgen_util::Lexer, from a struct aggregate that builds it (normally in its
+    constructor; any function of the dump will do)"""
+    cands = []
+    f0 = prog.find('Lexer', 'new_from_iter_with_state')
+    fns = ([f0] if f0 is not None else []) + [f for f in prog.fns if f is not f0]
+    for f in fns:
+        for b, ins in f.blocks.items():
+            for st in ins:
+                if st[0] == 'assign' and st[2][0] == 'struct' and re.match(r'^(lexgen_util::)?Lexer(::<|$| )', st[2][1]):
+                    names = [name for name, _ in st[2][2]]
+                    if '__state' in names and '__iter' in names:
+                        return {name: i for i, name in enumerate(names)}
+    raise Inconclusive('no struct aggregate of lexgen_util::Lexer found in the MIR dump')
 
 
 class StepHarness:
